@@ -134,6 +134,7 @@ def run_one_path(env, con, fn, ctx):
     ctx.entry_args = it.entry_args
     selfobj = args.get("self")
     it.old_self = ObjSnapshot(selfobj) if isinstance(selfobj, SObj) else None
+    it.ghost_old = {k: snapshot(v) for k, v in ctx.ghost.items() if isinstance(k, str) and k.isidentifier()}
     if con.yielded_sort is not None:
         ctx.ghost["yielded"] = SSeq(z3.Empty(con.yielded_sort.z3sort()), con.yielded_sort.elem, True)
     hook = getattr(con, "await_hook", None)
@@ -157,6 +158,8 @@ def run_one_path(env, con, fn, ctx):
         for gk, gv in ctx.ghost.items():
             if isinstance(gk, str) and gk.isidentifier() and gk not in ns:
                 ns[gk] = gv
+        for gk, gv in it.ghost_old.items():
+            ns.setdefault(gk + "__old", gv)
         ns.update(extra)
         return ns
 
